@@ -23,6 +23,10 @@ Proof.
   intros b k k' H. apply (f_equal r_len) in H. unfold br_drop in H. cbn [r_len] in H. lia.
 Qed.
 
+Lemma some3_inj : forall (x x' : bitrd) (y y' z z' : N),
+  Some (x, y, z) = Some (x', y', z') -> x = x' /\ y = y' /\ z = z'.
+Proof. intros x x' y y' z z' H. injection H. auto. Qed.
+
 Lemma litlen_short_low12 : forall t b b' k c l,
   N.land (r_bits b') 4095 = N.land (r_bits b) 4095 ->
   litlen_decode t b = Some (br_drop b k, c, l) -> c <> 1 ->
@@ -31,13 +35,23 @@ Proof.
   intros t b b' k c l Hlow H Hc. unfold litlen_decode in *. rewrite Hlow.
   set (nextSym := aget (litShort t) (N.land (r_bits b) 4095)) in *.
   destruct (N.land nextSym largeFlagBit =? 0).
-  - cbv zeta in H |- *. injection H as H1 H2 H3. apply br_drop_inj in H1.
-    rewrite H1, H2, H3. reflexivity.
+  - cbv zeta in H |- *.
+    pose proof (f_equal (fun o : option (bitrd * N * N) =>
+                  match o with Some (x, _, _) => r_len x | None => 0%Z end) H) as H1.
+    pose proof (f_equal (fun o : option (bitrd * N * N) =>
+                  match o with Some (_, y, _) => y | None => 0 end) H) as H2.
+    pose proof (f_equal (fun o : option (bitrd * N * N) =>
+                  match o with Some (_, _, z) => z | None => 0 end) H) as H3.
+    cbv beta iota in H1, H2, H3. unfold br_drop in H1. cbn [r_len] in H1.
+    assert (Hk : N.shiftr nextSym 28 = k) by lia. clear H H1.
+    subst k c l. reflexivity.
   - cbv zeta in H.
     destruct (1264 <=? N.land nextSym largeShortSymMask
                        + N.shiftr (N.land (u32 (r_bits b)) (ones32 (N.shiftr nextSym 26))) 12);
       [discriminate|].
-    injection H as _ H2 _. congruence.
+    pose proof (f_equal (fun o : option (bitrd * N * N) =>
+                  match o with Some (_, y, _) => y | None => 0 end) H) as H2.
+    cbv beta iota in H2. congruence.
 Qed.
 
 Lemma lit_word_unique : forall ll a la va la' va',
@@ -92,7 +106,7 @@ Proof.
       assert (Hd' : litlen_decode t b' = Some (br_drop b' K, N.of_nat 3, pk)).
       { apply (litlen_short_low12 t b b'); [exact Hlow|exact Hdec|lia]. }
       destruct (Hok b') as [(syms' & Hn' & Hlta' & Hx' & Hdec')|(_ & cnt & lits & Hdec' & _)].
-      - rewrite Hd' in Hdec'. injection Hdec' as E1 E2 E3.
+      - rewrite Hd' in Hdec'. apply some3_inj in Hdec'. destruct Hdec' as (E1 & E2 & E3).
         destruct syms' as [|[a' la'] [|[b2' lb'] [|[X' lX'] [|y r]]]]; cbn [length] in E2; try lia.
         destruct Hlta' as [Ha' [Hb' _]].
         unfold pk in E3. cbn [pack_syms] in E3.
@@ -102,7 +116,7 @@ Proof.
         destruct (lit_word_unique ll a la va la' va' Hia Hia' Ha) as [<- <-].
         destruct (lit_word_unique ll a2 la2 vb lb' vb' Hib Hib' Hb) as [<- <-].
         split; assumption.
-      - rewrite Hd' in Hdec'. injection Hdec' as E1 _ _.
+      - rewrite Hd' in Hdec'. apply some3_inj in Hdec'. destruct Hdec' as (E1 & _ & _).
         apply (f_equal r_len) in E1. unfold br_drop, b' in E1. cbn [r_len] in E1.
         unfold K in E1. lia. }
     destruct (Hflip (N.land (r_bits b) 4095)) as [M1 M1'].
@@ -111,13 +125,14 @@ Proof.
     { change 4095 with (N.ones 12). rewrite !N.land_ones. change (2 ^ 12) with 4096. lia. }
     unfold xmatch in M1, M1', M2, M2'.
     pose proof (testbit12_low (r_bits b)) as T1. pose proof (testbit12_high (r_bits b)) as T2.
+    set (v1 := N.land (r_bits b) 4095) in *. set (v2 := v1 + 4096) in *. clearbody v2. clearbody v1.
     destruct (Nat.ltb_spec 12 la) as [Hin|Hout].
-    + assert (E : N.testbit (N.land (N.land (r_bits b) 4095) (N.ones (N.of_nat la))) 12
-                  = N.testbit (N.land (N.land (r_bits b) 4095 + 4096) (N.ones (N.of_nat la))) 12)
+    + assert (E : N.testbit (N.land v1 (N.ones (N.of_nat la))) 12
+                  = N.testbit (N.land v2 (N.ones (N.of_nat la))) 12)
         by (rewrite M1, M2; reflexivity).
       rewrite !N.land_spec, N.ones_spec_low, !andb_true_r in E by lia. congruence.
-    + assert (E : N.testbit (N.land (N.shiftr (N.land (r_bits b) 4095) (N.of_nat la)) (N.ones (N.of_nat la2))) (12 - N.of_nat la)
-                  = N.testbit (N.land (N.shiftr (N.land (r_bits b) 4095 + 4096) (N.of_nat la)) (N.ones (N.of_nat la2))) (12 - N.of_nat la))
+    + assert (E : N.testbit (N.land (N.shiftr v1 (N.of_nat la)) (N.ones (N.of_nat la2))) (12 - N.of_nat la)
+                  = N.testbit (N.land (N.shiftr v2 (N.of_nat la)) (N.ones (N.of_nat la2))) (12 - N.of_nat la))
         by (rewrite M1', M2'; reflexivity).
       rewrite !N.land_spec, N.ones_spec_low, !andb_true_r, !N.shiftr_spec' in E by lia.
       replace (12 - N.of_nat la + N.of_nat la) with 12 in E by lia. congruence.
